@@ -1,0 +1,52 @@
+//go:build verif
+
+package exec
+
+import (
+	"reflect"
+	"runtime"
+	"sort"
+	"strings"
+)
+
+// Read-only views of unexported tables, for the verification harness in /verif.
+// Compiled only with the build tag "verif".
+
+// VerifHandlers returns, for every grammar nonterminal that has an evaluation
+// handler registered in contextFunctions, the name of the handler function.
+func VerifHandlers() map[string]string {
+	ret := make(map[string]string, len(contextFunctions))
+
+	for nt, fn := range contextFunctions {
+		name := runtime.FuncForPC(reflect.ValueOf(fn).Pointer()).Name()
+		name = name[strings.LastIndex(name, ".")+1:]
+		ret[nt.String()] = name
+	}
+
+	return ret
+}
+
+// VerifBuiltins returns the names of the builtin function library, sorted.
+func VerifBuiltins() []string {
+	ret := make([]string, 0, len(builtinFunctions))
+
+	for name := range builtinFunctions {
+		ret = append(ret, name.String())
+	}
+
+	sort.Strings(ret)
+	return ret
+}
+
+// VerifCallBuiltin invokes a builtin with the given arguments and a context
+// whose result is an empty node-set; used to probe the accepted arities.
+func VerifCallBuiltin(name string, args ...Result) (Result, error) {
+	fn := builtinFunctions[XmlName{Local: name}]
+
+	if fn == nil {
+		return nil, errBadArgs
+	}
+
+	context := &exprContext{result: NodeSet{}, contextSize: 1}
+	return fn(context, args...)
+}
